@@ -709,6 +709,24 @@ package yang
 //@   modifies nothing
 //@   safe
 //
+// checkErrors, the sweep behind GetErrors and Process: it hands every recorded
+// error of the subtree -- children, rpc / action input and output included --
+// to the callback. With the ghost counter of calls made through function
+// values: if any node of the subtree carries an error, the callback runs at
+// least once; and as long as it has not run, nothing at all has been written
+// (a conditional frame, `unchanged_unless`: the state after a call is the very
+// state before it unless the counter moved -- which is what lets the clause
+// compose over the recursion: the subtree a later recursive call sees is the
+// one that was there at entry, for the recursive definition of hasErr too).
+//@ spec hasErr(e *Entry) bool = e != nil && (len(e.Errors) > 0 || (exists k string :: has(e.Dir, k) && hasErr(e.Dir[k])) || (e.RPC != nil && (hasErr(e.RPC.Input) || hasErr(e.RPC.Output))))
+//@ func (*Entry).checkErrors props C04
+//@   ensures[an-error-anywhere-below-reaches-the-callback] old(hasErr(e)) ==> dyncalls() > old(dyncalls())
+//@   unchanged_unless dyncalls() > old(dyncalls())
+//@   loop 1
+//@     invariant dyncalls() == old(dyncalls()) ==> (forall k string :: visited(k) ==> !old(hasErr(e.Dir[k])))
+//@   loop 2
+//@     invariant _k > 0 ==> dyncalls() > old(dyncalls())
+//
 // importErrors: e collects errors, never loses any; nothing else is written.
 //@ func (*Entry).importErrors props C04
 //@   requires e != nil && (c != nil ==> built(c)) && (forall x *Entry :: childOK(x) && builtOld(x))
